@@ -5,6 +5,8 @@ package main
 import (
 	"math"
 	"math/big"
+
+	"google.golang.org/protobuf/encoding/protowire"
 )
 
 // Boundary-biased random values. Every choice comes from the one rng.
@@ -112,6 +114,8 @@ func genLen(r *rng) int {
 		return 129
 	case 13:
 		return 300 + r.intn(200)
+	case 15, 16:
+		return 116 + r.intn(16) // with a tag, a short key and the length prefixes: frames of 126..130 bytes
 	case 14:
 		if r.intn(6) == 0 {
 			return []int{16382, 16383, 16384, 16385}[r.intn(4)]
@@ -246,6 +250,13 @@ func (u *Universe) genVal(r *rng, sh *Shape, g genOpts) *Val {
 			} else {
 				v = genScalar(r, sh.Elem.K)
 			}
+			if r.intn(3) == 0 {
+				k, v = entryAtBoundary(r, sh.Key.K, sh.Elem.K, k, v)
+				if seen[k.String()] {
+					continue
+				}
+				seen[k.String()] = true
+			}
 			out.L = append(out.L, k, v)
 		}
 		out.sortMaps()
@@ -329,3 +340,72 @@ func (u *Universe) genMsg(r *rng, ti *TypeInfo, t byte, g genOpts) *Val {
 
 // ensure big import is used (Val.I)
 var _ = big.NewInt
+
+// scalarFieldSize: bytes of a map-entry component (tag < 16) in the canonical encoding; 0 for the zero value.
+func scalarFieldSize(k Kind, v *Val) int {
+	if v.T == 'b' {
+		if len(v.B) == 0 {
+			return 0
+		}
+		return 1 + protowire.SizeVarint(uint64(len(v.B))) + len(v.B)
+	}
+	if v.I.Sign() == 0 {
+		return 0
+	}
+	x := v.I.Int64()
+	if !v.I.IsInt64() {
+		x = int64(v.I.Uint64())
+	}
+	switch k {
+	case KBool:
+		return 2
+	case KInt32, KInt64, KEnum, KUint32, KUint64:
+		return 1 + protowire.SizeVarint(uint64(x))
+	case KSint32, KSint64:
+		return 1 + protowire.SizeVarint(protowire.EncodeZigZag(x))
+	case KFixed32, KSfixed32, KFloat:
+		return 5
+	default:
+		return 9
+	}
+}
+
+// entryAtBoundary resizes a string/bytes component so that the whole entry payload has a
+// length at a varint length-class boundary (127/128/129, seldom 16383/16384/16385).
+func entryAtBoundary(r *rng, kk, vk Kind, k, v *Val) (*Val, *Val) {
+	target := []int{127, 128, 128, 129}[r.intn(4)]
+	if r.intn(12) == 0 {
+		target = []int{16383, 16384, 16385}[r.intn(3)]
+	}
+	resize := func(kind Kind, other int) *Val {
+		rest := target - other
+		var l int
+		switch {
+		case rest >= 3 && rest <= 129:
+			l = rest - 2
+		case rest >= 131 && rest <= 16386:
+			l = rest - 3
+		default:
+			return nil
+		}
+		if kind == KString {
+			return vBytes(genUTF8(r, l))
+		}
+		b := make([]byte, l)
+		for i := range b {
+			b[i] = byte(r.u64())
+		}
+		return vBytes(b)
+	}
+	if (vk == KString || vk == KBytes) && (kk != KString || r.bool()) {
+		if nv := resize(vk, scalarFieldSize(kk, k)); nv != nil {
+			return k, nv
+		}
+	}
+	if kk == KString {
+		if nk := resize(kk, scalarFieldSize(vk, v)); nk != nil {
+			return nk, v
+		}
+	}
+	return k, v
+}
